@@ -130,6 +130,8 @@ def runMeta (pv : ParsedVoice) : P Verdict := do
     check (g.version == ver && g.fmt == fmt && g.fver == fver) "version / full-context strings differ from the file",
     check (ns == pv.streams.length) s!"{ns} stream models, file declares {pv.streams.length}" ]
   let mut alphaOpt : Option Float := Option.none
+  let mut stageOpt : Option String := Option.none
+  let mut lgOpt : Option String := Option.none
   for si in [0:ns] do
     let vl ← nat; let nw ← nat; let msd ← boolTok; let gv ← boolTok
     let opt := unescStr (← next)
@@ -145,8 +147,16 @@ def runMeta (pv : ParsedVoice) : P Verdict := do
     if si == 0 then
       for o in s.info.option do
         if o.startsWith "ALPHA=" then alphaOpt := some (parseFloatText (o.drop 6).toString)
+        if o.startsWith "GAMMA=" then stageOpt := some (o.drop 6).toString
+        if o.startsWith "LN_GAIN=" then lgOpt := some (o.drop 8).toString
   expect "engine"
   let esr ← nat; let efp ← nat; let ealpha ← flt; let evol ← flt; let espeed ← flt
+  let estage := unescStr (← next); let elg := unescStr (← next)
+  let wantStage := stageOpt.getD "0"
+  let wantLg := if lgOpt == some "1" then "true" else "false"
+  fails := fails ++ [
+    check (estage == "unknown" || estage.toNat? == wantStage.toNat?) s!"engine default gamma stage {estage}, header says {wantStage}",
+    check (elg == "unknown" || elg == wantLg) s!"engine default log-gain flag {elg}, header says {wantLg} (options of stream 0 in file order: {(pv.streams.getD 0 { name := "?", info := ⟨0, 0, false, false, []⟩, model := ⟨[], [], []⟩, gv := Option.none, windows := [] }).info.option})" ]
   fails := fails ++ [
     check (esr == g.sr) s!"engine default sampling rate {esr}, header {g.sr}",
     check (efp == g.fp) s!"engine default frame period {efp}, header {g.fp}",
